@@ -2,9 +2,10 @@ SPECIFICATION TraceSpec
 CONSTANTS
   MaxSrv = 1000000
   MaxCli = 1000000
+  ReqBuf = 16
   Cfgs = {}
   Lite = "full"
-INVARIANTS S1_ExitResult S2_Conservation S2_NoDataLoss S3_StartOnce S5_StdinEOF S6_StartFailure S7_ReplyValue S8_NoStuckCall
+INVARIANTS S1_ExitResult S2_Conservation S2_NoDataLoss S3_StartOnce S5_StdinEOF S6_StartFailure S7_ReplyValue S8_NoStuckCall S9_NoStall
 CONSTRAINT HWM
 POSTCONDITION TraceAccepted
 CHECK_DEADLOCK FALSE
